@@ -13,7 +13,7 @@
     [astep g op] = the corresponding list operation on the forest. *)
 From Coq Require Import NArith List.
 From FF Require Import Lib.Word Gen.Consts_aml_tree Aml.Stream Aml.Tree Aml.TreeSpec
-                       Aml.TreeProofs Aml.TreeProofsOps.
+                       Aml.TreeProofs Aml.TreeProofsOps Aml.TreeProofsFind Aml.TreeProofsAnc.
 Import ListNotations.
 Local Open Scope N_scope.
 
@@ -37,6 +37,18 @@ Theorem C13_ops_preserve_R :
 Proof. intros V. exact run_R. Qed.
 Print Assumptions C13_ops_preserve_R.
 
+(** From the empty tree: every legal history that starts with a creation and never frees slot 0
+    ends in a well-formed tree whose root scope (slot 0) is live -- the situation in which the
+    lookup theorems below apply to every live scope. *)
+Theorem C13_history_from_empty :
+  forall (V : Type) (o : op) (ops : list op),
+    legal_seq ghost0 (o :: ops) ->
+    (exists opc th, o = OpNew opc th) \/ (exists opc th nm, o = OpNewNamed opc th nm) ->
+    ~ In (OpFree 0) ops ->
+    exists t', run (@NewObjectTree V) (o :: ops) = Ok t' /\ R t' (arun ghost0 (o :: ops)) /\ live t' 0.
+Proof. intros V. exact run_root_live. Qed.
+Print Assumptions C13_history_from_empty.
+
 (** [newObject] grows the pool only when no freed slot exists; otherwise it hands out a freed slot. *)
 Theorem C13_reuse_before_grow :
   forall (V : Type) (t t' : ObjectTree V) (g : ghost) (opc th p : N),
@@ -49,3 +61,75 @@ Theorem C13_reuse_before_grow :
         length (t_pool t') = S (length (t_pool t)) /\ p = N.of_nat (length (t_pool t))).
 Proof. intros V. exact reuse_before_grow_lemma. Qed.
 Print Assumptions C13_reuse_before_grow.
+
+(** Path lookup.  For EVERY byte string [expr] and every live scope of a well-formed tree whose
+    root scope (slot 0) is live, [Find] returns exactly what the reference resolver [resolve]
+    (Aml/TreeSpec.v, over the abstract forest; names read from the objects) designates:
+      '\' + path     resolved downward from slot 0;
+      '^'... + path  one parent per '^' (not found above a root), then downward;
+      4 bytes        the first child of that name in the scope, else in each enclosing scope;
+      > 4 bytes      downward only, segment by segment (bytes that cannot start a name are
+                     skipped before each segment; not found if fewer than 4 bytes remain);
+      otherwise      not found. *)
+Theorem C13_find_spec :
+  forall (V : Type) (t : ObjectTree V) (g : ghost) (scope : N) (expr : list N),
+    R t g -> live t scope -> live t 0 ->
+    Find t scope expr = Ok (enc_result (resolve g (name_at t) scope expr)).
+Proof. intros V t g scope expr HR. exact (Find_spec t g HR scope expr). Qed.
+Print Assumptions C13_find_spec.
+
+(** ... in particular it never panics (no nil dereference, no index out of range) and its loops
+    end within the pool size, whatever the expression. *)
+Theorem C13_find_total :
+  forall (V : Type) (t : ObjectTree V) (g : ghost) (scope : N) (expr : list N),
+    R t g -> live t scope -> live t 0 ->
+    Find t scope expr <> Panic /\ Find t scope expr <> OutOfFuel.
+Proof. intros V t g scope expr HR. exact (Find_total t g HR scope expr). Qed.
+Print Assumptions C13_find_total.
+
+(** the relative lookup used by the parser directly *)
+Theorem C13_findRelative_spec :
+  forall (V : Type) (t : ObjectTree V) (g : ghost) (scope : N) (expr : list N),
+    R t g -> live t scope ->
+    findRelative t scope expr = Ok (enc_result (resolve_rel g (name_at t) scope expr)).
+Proof. intros V t g scope expr HR. exact (findRelative_spec t g HR scope expr). Qed.
+Print Assumptions C13_findRelative_spec.
+
+(** What a lookup returns is a live object (never a freed slot). *)
+Theorem C13_find_result_live :
+  forall (V : Type) (t : ObjectTree V) (g : ghost) (scope : N) (expr : list N) (r : N),
+    R t g -> live t scope -> live t 0 -> Find t scope expr = Ok r -> r = InvalidIndex \/ live t r.
+Proof. intros V t g scope expr r HR. exact (Find_result_live t g HR scope expr r). Qed.
+Print Assumptions C13_find_result_live.
+
+(** No freed object is reachable: every link of a live object is InvalidIndex or leads to a
+    live object, and ObjectAt answers nil for a freed slot. *)
+Theorem C13_freed_unreachable :
+  forall (V : Type) (t : ObjectTree V) (g : ghost),
+    R t g ->
+    (forall i o, get t i = Some o -> o_opcode o <> opFreed ->
+       forall l, In l [o_parent o; o_prev o; o_next o; o_first o; o_last o] -> l = InvalidIndex \/ live t l) /\
+    (forall i o, get t i = Some o -> o_opcode o = opFreed -> ObjectAt t i = None /\ kids g i = [] /\
+       forall p, ~ In i (kids g p)).
+Proof. intros V t g HR. exact (freed_unreachable t g HR). Qed.
+Print Assumptions C13_freed_unreachable.
+
+(** NumArgs and ArgAt read the child list of the forest. *)
+Theorem C13_numargs_argat :
+  forall (V : Type) (t : ObjectTree V) (g : ghost) (p index : N),
+    R t g -> live t p ->
+    NumArgs t (Some p) = Ok (N.of_nat (length (kids g p))) /\
+    ArgAt t (Some p) index = Ok (nth_error (kids g p) (N.to_nat index)).
+Proof. intros V t g p index HR. exact (numargs_argat t g HR p index). Qed.
+Print Assumptions C13_numargs_argat.
+
+(** ClosestNamedAncestor: when every live object carries an opcode-table index inside the table
+    ([info_ok]: true for objects created with an opcode that has a table entry), the ancestor
+    search never panics and returns the nearest enclosing object whose table entry has the Named
+    flag, or InvalidIndex if a Scope directive (or a root) is met first. *)
+Theorem C13_closest_named_ancestor :
+  forall (V : Type) (t : ObjectTree V) (g : ghost) (p : N),
+    R t g -> info_ok t -> live t p ->
+    ClosestNamedAncestor t (Some p) = Ok (enc_result (closest_ref t g p)).
+Proof. intros V t g p HR Hi. exact (ClosestNamedAncestor_spec t g HR Hi p). Qed.
+Print Assumptions C13_closest_named_ancestor.
